@@ -152,9 +152,14 @@ rdn(Run *r, size_t n)
 
 /* log the return code and, on -1, the retrievable description */
 static void
-lg_ret(Run *r, int ret, const CErr *err)
+lg_ret(Run *r, int ret, const CErr *err, int null_err)
 {
     lg8(r, ret == 0 ? 0 : (ret == -1 ? 1 : 2));
+    if (null_err) {
+        /* the hook passed err == NULL (as the sample hook does): nothing to retrieve */
+        lg8(r, 0xfe);
+        return;
+    }
     if (ret == -1) {
         const char *d = err ? r->t->error_description(err) : NULL;
         size_t      n = 0;
@@ -217,20 +222,22 @@ record_ops(Run *r, void *it, unsigned nops)
             if (fenced_free(&f)) { lg8(r, 0xEE); lg8(r, op); }
             break;
         }
-        case 8: { /* SET_RAW_NAME len bytes */
+        case 8: { /* SET_RAW_NAME nullerr len bytes */
+            int            ne  = rd8(r);
             size_t         len = rd16(r);
             const uint8_t *p   = rdn(r, len);
             Fenced         f   = fenced_new(len);
             const CErr    *err = NULL;
             int            ret;
             memcpy(f.buf, p, len);
-            ret = r->t->set_raw_name(it, &err, f.buf, len);
+            ret = r->t->set_raw_name(it, ne ? NULL : &err, f.buf, len);
             lg8(r, 0x18);
-            lg_ret(r, ret, err);
+            lg_ret(r, ret, err, ne);
             if (fenced_free(&f)) { lg8(r, 0xEE); lg8(r, op); }
             break;
         }
-        case 9: { /* SET_NAME nlen name zlen zone */
+        case 9: { /* SET_NAME nullerr nlen name zlen zone */
+            int            ne   = rd8(r);
             size_t         nlen = rd16(r);
             const uint8_t *n    = rdn(r, nlen);
             size_t         zlen = rd16(r);
@@ -241,17 +248,18 @@ record_ops(Run *r, void *it, unsigned nops)
             int            ret;
             memcpy(fn.buf, n, nlen);
             memcpy(fz.buf, z, zlen);
-            ret = r->t->set_name(it, &err, (const char *) fn.buf, nlen, zlen ? fz.buf : NULL, zlen);
+            ret = r->t->set_name(it, ne ? NULL : &err, (const char *) fn.buf, nlen, zlen ? fz.buf : NULL, zlen);
             lg8(r, 0x19);
-            lg_ret(r, ret, err);
+            lg_ret(r, ret, err, ne);
             if (fenced_free(&fn) | fenced_free(&fz)) { lg8(r, 0xEE); lg8(r, op); }
             break;
         }
-        case 10: { /* DELETE */
+        case 10: { /* DELETE nullerr */
+            int         ne  = rd8(r);
             const CErr *err = NULL;
-            int         ret = r->t->delete_rr(it, &err);
+            int         ret = r->t->delete_rr(it, ne ? NULL : &err);
             lg8(r, 0x1a);
-            lg_ret(r, ret, err);
+            lg_ret(r, ret, err, ne);
             break;
         }
         default:
@@ -332,8 +340,9 @@ cdrv_run(const FnTable *t, ParsedPacket *pp, const uint8_t *script, size_t scrip
                     case 5: (void) rd32(&r); break;
                     case 6: (void) rd8(&r); break;
                     case 7: (void) rdn(&r, rd8(&r)); break;
-                    case 8: (void) rdn(&r, rd16(&r)); break;
-                    case 9: (void) rdn(&r, rd16(&r)); (void) rdn(&r, rd16(&r)); break;
+                    case 8: (void) rd8(&r); (void) rdn(&r, rd16(&r)); break;
+                    case 9: (void) rd8(&r); (void) rdn(&r, rd16(&r)); (void) rdn(&r, rd16(&r)); break;
+                    case 10: (void) rd8(&r); break;
                     default: break;
                     }
                 }
@@ -341,7 +350,8 @@ cdrv_run(const FnTable *t, ParsedPacket *pp, const uint8_t *script, size_t scrip
             }
             break;
         }
-        case 8: { /* ADD sec len bytes */
+        case 8: { /* ADD nullerr sec len bytes */
+            int            ne  = rd8(&r);
             uint8_t        sec = rd8(&r);
             size_t         len = rd16(&r);
             const uint8_t *p   = rdn(&r, len);
@@ -351,13 +361,13 @@ cdrv_run(const FnTable *t, ParsedPacket *pp, const uint8_t *script, size_t scrip
             memcpy(f.buf, p, len);
             f.buf[len] = 0;
             switch (sec) {
-            case 0: ret = t->add_to_question(pp, &err, (const char *) f.buf); break;
-            case 1: ret = t->add_to_answer(pp, &err, (const char *) f.buf); break;
-            case 2: ret = t->add_to_nameservers(pp, &err, (const char *) f.buf); break;
-            default: ret = t->add_to_additional(pp, &err, (const char *) f.buf); break;
+            case 0: ret = t->add_to_question(pp, ne ? NULL : &err, (const char *) f.buf); break;
+            case 1: ret = t->add_to_answer(pp, ne ? NULL : &err, (const char *) f.buf); break;
+            case 2: ret = t->add_to_nameservers(pp, ne ? NULL : &err, (const char *) f.buf); break;
+            default: ret = t->add_to_additional(pp, ne ? NULL : &err, (const char *) f.buf); break;
             }
             lg8(&r, 8);
-            lg_ret(&r, ret, err);
+            lg_ret(&r, ret, err, ne);
             if (fenced_free(&f)) { lg8(&r, 0xEE); lg8(&r, op); }
             break;
         }
@@ -391,7 +401,8 @@ cdrv_run(const FnTable *t, ParsedPacket *pp, const uint8_t *script, size_t scrip
             if (fenced_free(&f)) { lg8(&r, 0xEE); lg8(&r, op); }
             break;
         }
-        case 11: { /* RENAME tlen t slen s suffix */
+        case 11: { /* RENAME nullerr tlen t slen s suffix */
+            int            ne   = rd8(&r);
             size_t         tlen = rd16(&r);
             const uint8_t *tn   = rdn(&r, tlen);
             size_t         slen = rd16(&r);
@@ -403,13 +414,14 @@ cdrv_run(const FnTable *t, ParsedPacket *pp, const uint8_t *script, size_t scrip
             int            ret;
             memcpy(ft.buf, tn, tlen);
             memcpy(fs.buf, sn, slen);
-            ret = t->rename_with_raw_names(pp, &err, ft.buf, tlen, fs.buf, slen, suf);
+            ret = t->rename_with_raw_names(pp, ne ? NULL : &err, ft.buf, tlen, fs.buf, slen, suf);
             lg8(&r, 11);
-            lg_ret(&r, ret, err);
+            lg_ret(&r, ret, err, ne);
             if (fenced_free(&ft) | fenced_free(&fs)) { lg8(&r, 0xEE); lg8(&r, op); }
             break;
         }
-        case 12: { /* RAW_NAME_FROM_STR len bytes */
+        case 12: { /* RAW_NAME_FROM_STR nullerr len bytes */
+            int            ne  = rd8(&r);
             size_t         len = rd16(&r);
             const uint8_t *p   = rdn(&r, len);
             Fenced         in  = fenced_new(len);
@@ -418,9 +430,9 @@ cdrv_run(const FnTable *t, ParsedPacket *pp, const uint8_t *script, size_t scrip
             const CErr    *err = NULL;
             int            ret;
             memcpy(in.buf, p, len);
-            ret = t->raw_name_from_str(out.buf, &raw_len, &err, (const char *) in.buf, len);
+            ret = t->raw_name_from_str(out.buf, &raw_len, ne ? NULL : &err, (const char *) in.buf, len);
             lg8(&r, 12);
-            lg_ret(&r, ret, err);
+            lg_ret(&r, ret, err, ne);
             if (ret == 0) {
                 lg16(&r, (uint16_t) raw_len);
                 lg(&r, out.buf, raw_len <= DNS_MAX_HOSTNAME_LEN + 1 ? raw_len : DNS_MAX_HOSTNAME_LEN + 1);
